@@ -165,7 +165,7 @@ def make_ctx():
     return ctx
 
 
-def find_leaks(targets: set, budget_s: float = 150.0):
+def find_leaks(targets: set, budget_s: float = 150.0, ranges: dict | None = None):
     """Runs candidate pages x option sets on the real code under line tracing until, for every target
     (file, line), a run is found that executes the line and returns with a changed expand_stack.
     Returns ({target: (doc, kwtext, before, after)}, runs)."""
@@ -210,7 +210,11 @@ def find_leaks(targets: set, budget_s: float = 150.0):
             after = list(ctx.expand_stack)
             if after != before:
                 for tg in targets:
-                    if tg in lines and tg not in found:
+                    # the run went through the exit's line - or, for exits whose line is never reported by the tracer (the end of
+                    # a loop body is the END line of a multi-line statement), through the function the exit belongs to
+                    lo, hi = (ranges or {}).get(tg, (tg[1], tg[1]))
+                    through = tg in lines or any(f == tg[0] and lo <= ln <= hi for f, ln in lines)
+                    if through and tg not in found:
                         found[tg] = (doc, _kw_text(kw), before, after)
     close(ctx)
     return found, n
@@ -251,6 +255,7 @@ def stack_balance(rep: C.Report, prefix: str = "") -> None:
     ob2 = rep.add(C.Ob(prefix + "Ob2 call_lua_sandbox restores the saved depth", "E3 AST path encoder + z3", [], "all paths of call_lua_sandbox incl. exception edges into except/finally; the call into Lua may leave any number L >= 0 of extra entries (Python exceptions swallowed by Lua's pcall inside frame callbacks)"))
     t0 = time.time()
     unbalanced = []
+    fn_ranges: dict = {}
     for fname in FILES:
         path = os.path.join(C.SRC, fname)
         try:
@@ -309,6 +314,7 @@ def stack_balance(rep: C.Report, prefix: str = "") -> None:
                     m = s.model()
                     dv = m.eval(ex.counters["depth"] - base, model_completion=True)
                     unbalanced.append((ob, name, fname, ex.kind, ex.line, str(dv), AP.model_path(m, enc)))
+                    fn_ranges[(fname, ex.line)] = (fn.lineno, fn.end_lineno)
                 else:
                     ob.detail += f"{name} exit {ex.kind}@{ex.line}: solver {r}; "
                     ob.__dict__["_bad"] = True
@@ -320,7 +326,7 @@ def stack_balance(rep: C.Report, prefix: str = "") -> None:
     hit_obs = set()
     if unbalanced:
         targets = {(fname, line) for _, _, fname, _, line, _, _ in unbalanced}
-        leaks, nrun = find_leaks(targets)
+        leaks, nrun = find_leaks(targets, ranges=fn_ranges)
         rep.extra["replay_catalogue_runs"] = nrun
         for ob, name, fname, kind, line, dv, path in unbalanced:
             hit = leaks.get((fname, line))
